@@ -3,6 +3,7 @@ CONSTANTS ND = 2
  MaxIn = 1
  Pinned = FALSE
  DoCleanup = TRUE
+ AtExit = TRUE
  CheckWait = TRUE
  Buffered = TRUE
  ExclTmp = TRUE
